@@ -126,14 +126,17 @@ PROPS['C20'] = {
 
 PROPS['C05'] = {
     'level': 'exploration', 'budget': {'quick': 70, 'thorough': 1200},
-    'parts': [{'sim': 'transfer', 'share': 3, 'env': {'VERIF_ORACLES': 'C05,C01'}}, {'sim': 'dial', 'share': 1, 'env': {'VERIF_ORACLES': 'C05'}}],
-    'rule': 'every datagram of whole connections (plain and spec-driven clients, QUIC v1 and v2, all three cipher suites as negotiated, connection-ID lengths 0-20, key-update intervals 3-40 packets, Retry) '
+    'parts': [{'sim': 'transfer', 'share': 3, 'env': {'VERIF_ORACLES': 'C05,C01'}}, {'sim': 'dial', 'share': 1, 'env': {'VERIF_ORACLES': 'C05'}}, {'sim': 'aead', 'share': 1.5}],
+    'rule': 'K:aead: a real pair of updatableAEAD objects keyed like crypto_setup does, driven by seeded histories of sends (packet numbers up to and across 2^16 / 2^24 / 2^32, skips, bulks of up to 300 000 packets, '
+            'truncation as the packer does it), a model network (fifo / reordering / faulty / misbehaving-peer classes: reordering, duplication, arbitrarily late duplicates, loss, bit flips, truncation, wrong packet numbers), '
+            'ACK feedback, key-update intervals 1..100 000 over any number of generations incl. simultaneous updates, the 3 x PTO retention of old keys to the nanosecond; oracle: RFC 9000 A.3 decodability from the TRUE largest opened number, '
+            'an independent implementation of key derivation / AEAD / header protection (both versions, three suites) compared bit for bit, key-phase discipline, KEY_UPDATE_ERROR cases; W: every datagram of whole connections (plain and spec-driven clients, QUIC v1 and v2, all three cipher suites as negotiated, connection-ID lengths 0-20, key-update intervals 3-40 packets, Retry) '
             'under loss/duplication/reordering/corruption/truncation must open under keys derived independently by the wiretap (RFC 9001/9369 salts and labels, secrets from the TLS key log), with strictly increasing '
             'packet numbers, a packet-number encoding decodable from what the sender knows to be acknowledged, key updates only when allowed; corrupted packets must never yield different data (C01 data oracle); '
             'non-trivial = a fault fired; distinct = distinct abstract wire traces',
-    'real_vs_stub': 'real: both endpoints incl. handshake package; independent re-implementation: wiretap packet protection; stub: network',
+    'real_vs_stub': 'K: real updatableAEAD pair, model peer/network, independent re-implementation of RFC 9001/9369 packet protection; W: real endpoints incl. handshake package; independent re-implementation: wiretap packet protection; stub: network',
     'assumptions': ['0-RTT packet payloads are not observable (no early secret in the key log)', 'exhaustive enumeration of DecodePacketNumber over small windows is input enumeration and not part of this check'],
-    'level_text': 'seeded search over whole-connection executions; an independent decoder opens every packet and checks numbering, encoding length and key-update discipline; tampering is covered through the data oracle',
+    'level_text': 'seeded search over 1-RTT protection histories of a real AEAD pair against a reference model and an independent implementation, plus seeded search over whole-connection executions; an independent decoder opens every packet and checks numbering, encoding length and key-update discipline; tampering is covered through the data oracle',
     'level_note': W_NOTE, 'technique': W_TECH,
 }
 
